@@ -12,12 +12,14 @@ fn gw() -> Address {
 
 // ------------------------------------------------------------------ C13
 fn c13_call_contract(p: usize) {
+    c13_call_contract_with(any::bytes_exact(p))
+}
+fn c13_call_contract_with(payload: soroban_sdk::Bytes) {
     let env = Env::default();
     any::auths();
     let caller = any::address(3);
     let chain = any::string(2);
     let addr = any::string(2);
-    let payload = any::bytes_exact(p);
     let spec_hash = ideal_hash(&payload.0);
     let w0 = model::storage_writes();
     model::with_contract(&gw(), || {
@@ -68,6 +70,12 @@ fn c13_call_contract_p64() {
 #[kani::proof]
 fn c13_call_contract_p1030() {
     c13_call_contract(1030)
+}
+
+// HARNESS props=C13 tier=quick profile=gw_c13long shape="abstract long payload: EVERY length from 65 bytes to 2^32-1, opaque content (equal only to itself; any proper sub-range differs) — covers cut-offs at any size"
+#[kani::proof]
+fn c13_call_contract_long() {
+    c13_call_contract_with(any::bytes_long())
 }
 
 // ------------------------------------------------------------------ C02: consumption and queries
